@@ -222,7 +222,8 @@ def eval_bandamp(case):
     return OK(outcome=(w, hash(tuple(acc))), nontrivial=True, evals=nev)
 
 
-OPT_Q = [(), ('trough',), ('nosamp',), ('trough', 'nosamp'), ('nc2',), ('trough', 'ns.5'), ('b5',), ('trough', 'b1')]
+OPT_Q = [(), ('trough',), ('nosamp',), ('trough', 'nosamp'), ('nc2',), ('trough', 'ns.5'), ('b5',), ('trough', 'b1'),
+         ('int',), ('int', 'trough'), ('driftdn',), ('driftup', 'trough')]
 OPT_T = OPT_Q + [('amp',), ('amp', 'trough'), ('ns.375',), ('trough', 'nc2'), ('band5_12',), ('trough', 'band7_16'),
                  ('fs128',), ('trough', 'fs128'), ('x1024', 'trough'), ('dc5',), ('dc5', 'trough'), ('neg', 'trough')]
 
@@ -239,6 +240,14 @@ def spaces(tier, seed):
                                 describe='durations / voltages / symmetry on every tiling table over every signal of length 6'))
         out.append(ProductSpace('bandamp-words', S.word_dims(S.alphabet(4), 2), eval_bandamp,
                                 describe='compute_band_amp on 2-letter words x every tiling on the even grid x n_cycles 1,2'))
+        ali_ = ['a', 'A', 'w', 'd']
+        out.append(ProductSpace('Wint(4,5)', S.word_dims(ali_, 5) + [[('int',), ('int', 'trough')]], eval_pipeline,
+                                describe='integer-dtype signals whose rise + decay sums are odd (volt_amp has a fractional part)',
+                                bounds={'letters': ali_}))
+        alv = ['a', 's', 'l', 'v']
+        out.append(ProductSpace('Wlen(4,6)xcentring', S.word_dims(alv, 6) + [[(), ('trough',)]], eval_pipeline,
+                                describe='6-letter words over letters of 8 / 6 / 10 / 7 samples: signal lengths 36..60 incl. primes '
+                                         '(FFT-length dependent code paths)', bounds={'letters': alv}))
         ali = [(c, e) for c in ('peak', 'trough') for e in ('compute_features', 'compute_shape_features', 'Bycycle.fit')]
         out.append(ProductSpace('aliased-buffer', S.word_dims(S.alphabet(4), 5) + [ali], eval_aliased,
                                 describe='one pre-allocated array analysed twice with different content (in-place overwrite) x centring x entry point'))
